@@ -60,7 +60,7 @@ static int print_in_child(const char *path, const char *out_path, const char *er
 		struct rlimit rl = { 5, 6 }; setrlimit(RLIMIT_CPU, &rl);
 		int o = open(out_path ? out_path : "/dev/null", O_WRONLY | O_CREAT | O_TRUNC, 0600); dup2(o, 1);
 		int e = open(err_path, O_WRONLY | O_CREAT | O_TRUNC, 0600); dup2(e, 2);
-		vp_out = NULL;
+		vp_out = NULL; vp_quiet = 1;
 		signal(SIGABRT, SIG_DFL);
 		int rc = qb_log_blackbox_print_from_file(path);
 		fflush(stdout);
